@@ -21,7 +21,7 @@ def build_frame_spec(rng, layer, group, kind, dead):
     """Returns (list of LaneSpec, description). dead = idents that announced FATAL in an earlier frame (absent from now on)."""
     ib = layer <= 2
     lanes = [i for i in group if i not in dead]
-    bc = rng.randrange(256)
+    bc = rng.choice([0, 0, 255, 1, rng.randrange(256), rng.randrange(256)])
     what = kind
     if kind == "lanes_fewer" and len(lanes) > 1:
         lanes = lanes[:-rng.choice([1, 1, 2])] or lanes[:1]
